@@ -68,7 +68,9 @@ pub fn basis(name: &str) -> F {
     v.extend_from_slice(b"N:");
     v.extend_from_slice(name.as_bytes());
     let id = basis_id_raw(&v);
-    names().lock().unwrap().entry(id).or_insert_with(|| name.to_string());
+    crate::allocmon::without_sched_points(|| {
+        names().lock().unwrap().entry(id).or_insert_with(|| name.to_string());
+    });
     F::unit(id)
 }
 
@@ -474,13 +476,17 @@ impl Compressable for F {
 
     fn compress(&self) -> CF {
         sched("F.compress");
-        let d = self.canonical_digest();
-        if !self.0.is_empty() {
-            INTERN.with(|t| {
-                t.borrow().lock().unwrap().entry(d).or_insert_with(|| self.clone());
-            });
-        }
-        CF(d)
+        // the intern table is harness state shared between threads: its (history-dependent) allocations are not
+        // scheduling points of the subject
+        crate::allocmon::without_sched_points(|| {
+            let d = self.canonical_digest();
+            if !self.0.is_empty() {
+                INTERN.with(|t| {
+                    t.borrow().lock().unwrap().entry(d).or_insert_with(|| self.clone());
+                });
+            }
+            CF(d)
+        })
     }
 }
 
@@ -492,7 +498,7 @@ impl Decompressable for CF {
         if self.0 == [0u8; 32] {
             return Some(F::zero());
         }
-        INTERN.with(|t| t.borrow().lock().unwrap().get(&self.0).cloned())
+        crate::allocmon::without_sched_points(|| INTERN.with(|t| t.borrow().lock().unwrap().get(&self.0).cloned()))
     }
 }
 
